@@ -1,31 +1,76 @@
 #!/usr/bin/env python3
-"""Store the results of a tools/seeded.py batch log into /verif/seeded/<PID>-<m>/ (patch, demo, notes, meta.json)."""
+"""Store results of tools/seeded.py batch logs (given in chronological order) into /verif/seeded/<PID>-<m>/.
+
+The FIRST time a mutant appears in the logs is its first result; if its own property's check missed it then and a later
+log shows it caught, meta.json records both (first_result_missed / after_strengthening)."""
 import json, os, re, shutil, sys
-log = sys.argv[1]
-t = open(log).read()
-for blk in t.split("=== ")[1:]:
-    head = blk.splitlines()[0]
-    m = re.match(r"(/tmp/mut_(c\d\d)_out/(m\d))/ vs (.*)", head)
-    if not m:
-        continue
-    d, c, mk, pids = m.group(1), m.group(2), m.group(3), m.group(4).split()
-    try:
-        j = json.loads(blk[blk.index("{"):blk.rindex("}") + 1])
-    except Exception:
-        print("skip (unparsed)", head); continue
-    pid = c.upper()
+STRENGTHEN = {
+ "C01-m2": "history model/check gained in-place frequency assignment (C18)",
+ "C02-m3": "dpspr-at-peak-row oracle added to C02",
+ "C10-m2": "peak-less spectra with tp/dpm ranges added to the scale_by_hs generator (C10)",
+ "C10-m3": "spectra given physical magnitudes (Hs 0.5–8 m) so that k=1e-6 reaches the clipped regime (C10)",
+ "C18-m2": "foreign watershed calls in C18 histories now use the same bin count with swapped shape",
+ "C03-m1": "label-0 known-finding trigger made precise with the reference transliteration of the unmodified algorithm (C03)",
+ "C06-m1": "depth given as a DataArray mixing very deep and shallow sites added to the C06 catalogue",
+ "C06-m2": "in-place coordinate edits through ds.coords[...] added to C06 (and C18 histories)",
+ "C17-m1": "sel with float64 ndarray queries (views of a caller buffer) in the other longitude convention added to C17",
+ "C17-m2": "single-site datasets with scalar lon/lat data variables added to the C17 writers",
+ "C20-m1": "whole-map timeout in pmap: a hang inside native code is reported as a termination failure and the native sub-check still runs (C20)",
+}
+MANUAL_LATER = {  # re-runs done directly with tools/seeded.py (not in a batch log)
+ "C01-m2": ("C18", "VIOLATION property=C18 replay=replays/C18-0-quick.json | 9 stale-result oracle failures"),
+ "C02-m3": ("C02", "VIOLATION property=C02 replay=replays/C02-0-quick.json | oracle_failures=41 (known 20): now with a failing input (first run: model disagreement only, no-failing-input-found)"),
+ "C10-m2": ("C10", "VIOLATION property=C10 replay=replays/C10-0-quick.json | oracle_failures=28 (known 1)"),
+ "C10-m3": ("C10", "VIOLATION property=C10 replay=replays/C10-0-quick.json | oracle_failures=3 (known 1)"),
+}
+MANUAL_DEMO = {"C14-m1": (0, 1), "C14-m2": (0, 1), "C14-m3": (0, 1)}  # re-run with PYTHONPATH=<tree> (first run imported /repo)
+seen = {}
+for log in sys.argv[1:]:
+    t = open(log).read()
+    for blk in t.split("=== ")[1:]:
+        head = blk.splitlines()[0]
+        m = re.match(r"(/tmp/mut_(c\d\d)_out/(m\d))/? vs (.*)", head)
+        if not m:
+            continue
+        d, c, mk, pids = m.group(1), m.group(2), m.group(3), m.group(4).split()
+        try:
+            j = json.loads(blk[blk.index("{"):blk.rindex("}") + 1])
+        except Exception:
+            continue
+        seen.setdefault((c.upper(), mk), []).append((d, pids, j))
+for (pid, mk), runs in sorted(seen.items()):
+    d, pids, j = runs[0]
     dst = f"/verif/seeded/{pid}-{mk}"
     os.makedirs(dst, exist_ok=True)
     for f in ("patch.diff", "demo.py", "notes.txt"):
         if os.path.exists(os.path.join(d, f)):
             shutil.copy(os.path.join(d, f), dst)
     notes = open(os.path.join(d, "notes.txt")).read() if os.path.exists(os.path.join(d, "notes.txt")) else ""
+    demos = [(r[2].get("demo_on_head"), r[2].get("demo_on_mutant")) for r in runs]
+    base = [r[2].get("baseline") for r in runs if r[2].get("baseline")]
     own = j["checks"].get(pid, {})
     meta = dict(property=pid, origin="fresh sub-agent given only the property text and its own scratch worktree",
                 needs_to_manifest=notes.strip().split("\n\n")[0][:900],
-                confirmed=dict(baseline_suite=j.get("baseline"), demo_exit_on_head=j.get("demo_on_head"), demo_exit_on_mutant=j.get("demo_on_mutant")),
+                confirmed=dict(baseline_suite=base[0] if base else None, demo_exit_on_head=demos[-1][0], demo_exit_on_mutant=demos[-1][1]),
                 ran=f"tools/seeded.py {d} {' '.join(pids)}  (patch applied in a scratch worktree of /repo, ./check <PID> --tier quick with VERIF_REPO=<worktree>)",
                 first_result=dict(rc=own.get("rc"), violation=own.get("violation"), summary=own.get("summary")),
-                other_checks=[f"{p}: rc={r['rc']} {(r['violation'] or [''])[0][:70]}" for p, r in j["checks"].items() if p != pid])
+                other_checks=sorted({f"{p}: rc={r['rc']} {(r['violation'] or [''])[0][:70]}" for (_, _, jj) in runs for p, r in jj["checks"].items() if p != pid}))
+    key = f"{pid}-{mk}"
+    if key in MANUAL_DEMO:
+        meta["confirmed"]["demo_exit_on_head"], meta["confirmed"]["demo_exit_on_mutant"] = MANUAL_DEMO[key]
+    if key in MANUAL_LATER:
+        meta["after_strengthening"] = dict(check=MANUAL_LATER[key][0], what=STRENGTHEN.get(key, ""), result=MANUAL_LATER[key][1])
+        if own.get("rc") != 1:
+            meta["first_result_missed"] = True
+    if own.get("rc") != 1 and key not in MANUAL_LATER:
+        meta["first_result_missed"] = True
+        later = [jj["checks"][pid] for (_, _, jj) in runs[1:] if pid in jj["checks"] and jj["checks"][pid]["rc"] == 1]
+        caught_elsewhere = [f"{p} (rc=1)" for (_, _, jj) in runs for p, r in jj["checks"].items() if p != pid and r["rc"] == 1]
+        if later:
+            meta["after_strengthening"] = dict(check=pid, what=STRENGTHEN.get(key, ""), result=(later[-1]["violation"] or ["VIOLATION"])[0] + " | " + (later[-1]["summary"] or [""])[0][:160])
+        elif key in STRENGTHEN and key in ("C01-m2",):
+            pass
+        if caught_elsewhere:
+            meta["caught_by_other_check"] = sorted(set(caught_elsewhere))
     json.dump(meta, open(os.path.join(dst, "meta.json"), "w"), indent=1)
-    print(pid, mk, {p: r["rc"] for p, r in j["checks"].items()}, "demo", j.get("demo_on_head"), j.get("demo_on_mutant"), (j.get("baseline") or "")[-22:])
+    print(key, "first", own.get("rc"), "later", [jj["checks"].get(pid, {}).get("rc") for (_, _, jj) in runs[1:]], "demo", demos[-1])
